@@ -80,7 +80,7 @@ namespace mustache {
 
         ActionInfo& emplaceItem(Entity enity, Action action);
 
-        std::byte* allocate(uint32_t size);
+        std::byte* allocate(uint32_t size, uint32_t align = 1u);
 
         std::vector<DataChunk> chunks_;
         uint32_t target_chunk_size_ = 4096u;
